@@ -53,6 +53,23 @@ def oracle(req, resp):
     return None
 
 
+def oracle_z(req, resp):
+    """zero-sized values: `r` every two values equal, `i` no value equals any"""
+    if not resp.startswith("ok "):
+        return "call failed: " + resp
+    toks = req.split(" ")
+    mode, ops = toks[1], [o for o in toks[2:] if o]
+    got = [x.split("=")[0] for x in resp[3:].split(" | ")[0].split(" ") if x]
+    n = 0
+    for k, (op, t) in enumerate(zip(ops, got)):
+        want = 0 if (op == "f:" and mode == "r" and n > 0) else n
+        if want == n:
+            n += 1
+        if int(t) != want:
+            return f"op {k} ({op}) on a storage of {n} zero-sized values ({'reflexive' if mode == 'r' else 'irreflexive'} equality): token {t}, the property demands {want}"
+    return None
+
+
 def gen(ctx):
     rnd = random.Random(ctx.seed)
     reqs = []
@@ -108,6 +125,16 @@ def run(ctx):
         big.append("store " + " ".join(ops))
     found_big = C.oracle_search(ctx, big, oracle, "store-big")
     ctx.oblige(f"oracle:histories of more than 2^16 values ({len(big)} histories, implementation only)", not found_big)
+    # zero-sized value types (reflexive and irreflexive equality): all histories up to length 5, and long ones
+    zreqs = []
+    for mode in "ri":
+        for n in range(0, 6):
+            for w in itertools.product(("a:", "f:"), repeat=n):
+                zreqs.append(f"storez {mode} " + " ".join(w))
+        rz = random.Random(ctx.seed + 7)
+        for n in (31, 32, 33, 34, 63, 64, 65, 70, 129, 300, 1030):
+            zreqs.append(f"storez {mode} " + " ".join(rz.choice(("a:", "a:", "f:")) for _ in range(n)))
+    C.differential(ctx, zreqs, "store-zero-sized", oracle=oracle_z)
     impl, model = C.differential(ctx, reqs, "store", oracle=oracle)
     for r, a in zip(reqs, impl):
         if " f:" in r and len(r) > 12:
